@@ -118,6 +118,16 @@ def check_noise(case):
     return fails, (path, db, isinstance(snr, list), snr is None, tuple(round(float(v), 9) for v in sc))
 
 
+@kind("noise-long")
+def check_noise_long(case):
+    from mc.harness import shrink
+    L, pat = case["len"], case["pattern"]
+    a = [[math.sin(i / 7.0) * 3 + 1 for i in range(L)], [float((i * i) % 13 - 6) for i in range(L)],
+         [(-1.0) ** i * (1 + 4.0 * i / L) for i in range(L)]][pat]
+    fails, sig = check_noise({"a": a, "snr": case["snr"], "db": case["db"], "std": case["std"], "path": case["path"]})
+    return shrink(fails, long=True), (None if sig is None else (case["path"], L, pat, hash(sig) & 0xffffff))
+
+
 @kind("noise-real-generator")
 def check_real(case):
     from traffic_weaver.process import noise_gauss
@@ -192,15 +202,22 @@ def harnesses(tier, seed):
                 judge(ctx, check_noise, {"a": [v * mag for v in a], "snr": snr, "db": db, "std": std, "path": path, "a_dtype": adt},
                       bulk=True, nontrivial=len(set(a)) > 1)
 
+    long_lengths = [50, 400] + [v for v in A.sizes(0, 200000 if quick else 1100000, pow2=False) if v > 400]
+
     def long_body(ctx):
-        L = ctx.choose([50, 400], "len")
+        L = ctx.choose(long_lengths, "len")
         pat = ctx.choose(3, "pattern")
-        fi = ctx.choose(len(forms), "snr-form")
+        fi = ctx.choose(len(forms) if L <= 400 else 2, "snr-form")
+        if L > 400:
+            fi = (0, 5)[fi]
         a = [[math.sin(i / 7.0) * 3 + 1 for i in range(L)], [float((i * i) % 13 - 6) for i in range(L)],
-             [(-1.0) ** i * (1 + i / L) for i in range(L)]][pat]
+             [(-1.0) ** i * (1 + 4.0 * i / L) for i in range(L)]][pat]      # the last one is not stationary: its power grows
         snr, db, std = forms[fi]
         for path in ("process", "weaver"):
-            judge(ctx, check_noise, {"a": a, "snr": snr, "db": db, "std": std, "path": path})
+            if L <= 400:
+                judge(ctx, check_noise, {"a": a, "snr": snr, "db": db, "std": std, "path": path})
+            else:
+                judge(ctx, check_noise_long, {"len": L, "pattern": pat, "snr": snr, "db": db, "std": std, "path": path})
 
     def real_body(ctx):
         s = ctx.choose([0, 1, 2], "seed")
